@@ -721,29 +721,38 @@ func c18Lists(r *Run, rng *Rng, mul int) {
 	}
 }
 
+var c18ReplayDn *c18DnState
+
+// c18ReplayMore re-executes defined-name op lines (stateful) of a replay file.
 func c18ReplayMore(r *Run, rng *Rng, line string, w []string) {
 	_ = reflect.TypeOf
-}
-
-// c18CellSet expands a rendered sqref ("s=<hex>") into its sorted set of cells.
-func c18CellSet(rendered string) string {
-	var cells []string
-	for _, part := range strings.Fields(unhx(strings.TrimPrefix(rendered, "s="))) {
-		q, err := xl.VerifRangeRefToCoordinates(part)
-		if err != nil {
-			c, ro, e2 := xl.CellNameToCoordinates(part)
-			if e2 != nil {
-				return rendered
-			}
-			q = []int{c, ro, c, ro}
+	arg := func(i int) string {
+		if i < len(w) {
+			return unhx(w[i])
 		}
-		for c := q[0]; c <= q[2]; c++ {
-			for ro := q[1]; ro <= q[3]; ro++ {
-				n, _ := xl.CoordinatesToCellName(c, ro)
-				cells = append(cells, n)
-			}
+		return ""
+	}
+	switch w[0] {
+	case "dnreset":
+		var sheets []string
+		for _, h := range w[1:] {
+			sheets = append(sheets, unhx(h))
+		}
+		if len(sheets) == 0 {
+			sheets = c18DnSheets
+		}
+		c18ReplayDn = c18DnNew(r, sheets)
+	case "dnset", "dndel", "dnget":
+		if c18ReplayDn == nil {
+			c18ReplayDn = c18DnNew(r, c18DnSheets)
+		}
+		switch w[0] {
+		case "dnset":
+			c18ReplayDn.set(r, xl.DefinedName{Name: arg(1), Scope: arg(2), RefersTo: arg(3), Comment: arg(4)})
+		case "dndel":
+			c18ReplayDn.del(r, arg(1), arg(2))
+		default:
+			c18ReplayDn.get(r)
 		}
 	}
-	sort.Strings(cells)
-	return strings.Join(cells, " ")
 }
